@@ -109,6 +109,29 @@ struct recl<15> {
   static constexpr const char* name = "debra_sf2_abandon";
 };
 
+// Slot bookkeeping that hazard_pointer / hazard_eras publish through their allocation strategy (the number of hazard pointers /
+// eras of all live threads: it scales the retire threshold and the size of every scan); -1 for reclaimers without such a counter.
+template <int N>
+inline long declared_slots() {
+  return -1;
+}
+template <>
+inline long declared_slots<1>() {
+  return (long)xr::hp_allocation::static_strategy<XV_HPK, 1, 0>::number_of_active_hazard_pointers();
+}
+template <>
+inline long declared_slots<2>() {
+  return (long)xr::he_allocation::static_strategy<XV_HPK, 1, 0>::number_of_active_hazard_eras();
+}
+template <>
+inline long declared_slots<8>() {
+  return (long)xr::hp_allocation::dynamic_strategy<2, 1, 0>::number_of_active_hazard_pointers();
+}
+template <>
+inline long declared_slots<9>() {
+  return (long)xr::he_allocation::dynamic_strategy<2, 1, 0>::number_of_active_hazard_eras();
+}
+
 using R = recl<XV_RECL>::type;
 static constexpr const char* RNAME = recl<XV_RECL>::name;
 } // namespace xv
